@@ -34,7 +34,8 @@ RECURSIVE Walk(_, _)
 Walk(st, ss) == IF ss = <<>> THEN st
                 ELSE LET s == Head(ss) IN
                      Walk(IF s \in {"", "."} THEN st
-                          ELSE IF s = ".." THEN (IF st = <<>> THEN st ELSE SubSeq(st, 1, Len(st) - 1))
+                          ELSE IF s = ".." THEN (IF st = <<>> \/ st[Len(st)] = ".." THEN Append(st, "..")   \* above the modelled top: stays outside for good
+                                                 ELSE SubSeq(st, 1, Len(st) - 1))
                           ELSE Append(st, s), Tail(ss))
 Resolved(ss) == Walk(Root, ss)
 Inside(p) == Len(p) >= 1 /\ p[1] = "root"
